@@ -557,6 +557,11 @@ def run_input(ck, inp, tag):
 
 
 def run(ck):
+    try:  # translation tie broken -> directed search at the translated functions (RB.Proofs.GenC10)
+        from corr import gen_cli
+        gen_cli.directed(ck)
+    except ImportError:
+        pass
     import itertools
     quick = ck.tier == 'quick'
     rng = ck.rng
